@@ -166,7 +166,7 @@ def selection_sites(eng):
         n0, cand, holder = ocs[0]
         tg = [k for k in ks if any(nx.has_path(cfg.g, n, k) for (n, _c, _h) in ocs)]
         sites.append(Site("move-" + m.qualname.split(".")[-1], m, cfg, cfg.entry, tg, holder, cand, _fixed_flags(m, cfg, {holder, cand}), False,
-                          {"ORDER", "NAN_CAND"}, _guard_text(cfg, [n for (n, _c, _h) in ocs])))
+                          {"ORDER", "NAN_CAND", "NAN_HOLDER"}, _guard_text(cfg, [n for (n, _c, _h) in ocs])))
     # ---- merge: the tuple assignment of the hard-restart loop that replaces the running best by the new run's result
     solve = eng.fn("solver.solve")
     cfg = eng.cfg(solve)
